@@ -1800,6 +1800,12 @@ impl HttpsProxy {
         }
     }
 
+    /// verification hook: lets an external replay test look at a listener's tags
+    #[cfg(sozu_verif)]
+    pub fn verif_listener(&self, token: &Token) -> Option<Rc<RefCell<HttpsListener>>> {
+        self.listeners.get(token).cloned()
+    }
+
     pub fn add_listener(
         &mut self,
         config: HttpsListenerConfig,
